@@ -171,6 +171,8 @@ func c05Gen(rng *verifsim.RNG, idx int, tier string) *Plan {
 		for i := 0; i < nrs; i++ {
 			q.Actions = append(q.Actions, rsAction(int64(rng.Dur(0, time.Duration(q.Horizon)))+jitter(rng), "::"))
 		}
+		// "recur forever" includes across a re-initialisation
+		maybeReinit(rng, q, "eth0", nsSec, q.Horizon*3/4, 0.3)
 		return q
 	}
 	return p
@@ -314,6 +316,24 @@ func c05Recurrence(info *runInfo, res *verifsim.Result) {
 			res.Violate("C05.recur", "gap", "max_interval=%s: no multicast RA between %s and the end of the generation at %s", time.Duration(mx), ms(last), ms(end))
 		}
 		c05Unsolicited(res, spec, g, end, stopSeq)
+	}
+	// across generations: a link change re-initialises at once (nothing makes a
+	// dial attempt fail in this population), so the same bound holds from any
+	// multicast RA to the next one, whichever connection sends it, up to the stop
+	if stopT != 0 {
+		var all []int64
+		for _, w := range h.writes {
+			if w.ifn == spec.Name && w.mc() && w.t <= stopT && w.err == "" && w.marshalErr == "" {
+				all = append(all, w.t)
+			}
+		}
+		all = append(all, stopT)
+		for i := 1; i < len(all); i++ {
+			if all[i]-all[i-1] > limit {
+				res.Violate("C05.recur", "gap-across", "max_interval=%s: no multicast RA between %s and %s (generations: %d)", time.Duration(mx), ms(all[i-1]), ms(all[i]), len(h.gens))
+				break
+			}
+		}
 	}
 	res.Nontrivial = n >= 5
 }
